@@ -278,7 +278,7 @@ func c11Jobs(tier string) []Job {
 		concs := []int{1, 2}
 		if tier == "thorough" {
 			concs = []int{1, 2, 3}
-		} else if ci == 1 || ci == 3 {
+		} else if ci == 1 || ci >= 3 {
 			concs = []int{1}
 		}
 		for _, conc := range concs {
